@@ -536,5 +536,6 @@ func runC20(c *Ctx) []Obligation {
 	out = append(out, c.fieldTable(P, "StakedTokens.writers", "x/apps/types", "Application", "StakedTokens", false,
 		[]string{`app\.newDefaultGenesisState`, `\(x/apps/types\.Application\)\.(AddStakedTokens|RemoveStakedTokens)`, `x/apps/types\.(NewApplication)`, `\(\*?x/apps/types\.(Application|LegacyApplication|ProtoApplication|LegacyProtoApplication)\)\.(FromProto|ToProto|ToApplication|ToLegacy|Unmarshal|UnmarshalJSON|XXX_.*|Reset)`, `x/apps/types\.[A-Za-z]*(Unmarshal|FromProto|ToProto).*`},
 		"StakedTokens of an application record is assigned only by the staking arithmetic helpers, the constructor and (de)serialisation"))
+	out = append(out, appsEditRouting(c, P)...)
 	return out
 }
